@@ -7,6 +7,8 @@ from .. import cprgen
 from .C06 import WINDOW_HI
 
 LEVEL = "exploration"
+TECHNIQUE = 'runtime monitoring: reference surface CPR encoder (Nb=19) as oracle, receiver placed within the stated premise'
+LEVEL_TEXT = 'Exploration dense where the 90-degree ambiguity is resolved (equator, lon 0/+-90/+-180, NL transitions); premise (<=45 NM, <45 deg) checked per case.'
 LEVEL_RULE = (
     "adsb.position(...,lat_ref,lon_ref) / adsb.surface_position called on even/odd surface frames (TC 5-8) built by the "
     "reference encoder (Nb=19) from two positions <=0.2 NM apart, receiver <=45 NM away and <45 deg of longitude away; "
